@@ -70,7 +70,9 @@ def chain_reader_fields(p):
 
 def file_digest_funcs(p):
     """package functions (taking a path) from which a file read loop is reachable"""
-    loops = [fq for fq, f in p.funcs.items() if any(t == "extm:open().read" for _, tg in p.calls[fq] for t in tg) and f.module.name == "ascmhl.hasher"]
+    from .readloops import read_functions
+
+    loops = [f.qual for f, _ in read_functions(p)]
     out = set()
     for fq in p.funcs:
         r = p.reachable([fq])
@@ -108,44 +110,70 @@ def run(report, p):
     )
     chain_calls = [c for c, tg in p.calls[loader.qual] if any(t.endswith("chain_xml_parser.parse") for t in tg)]
     manifest_calls = [c for c, tg in p.calls[loader.qual] if any(t.endswith("hashlist_xml_parser.parse") for t in tg)]
-    loops = []
-    for n in g.nodes:
-        if n.kind == "loop" and isinstance(n.ast, ast.For):
-            for o in pr.origins(n.ast.iter, loader):
-                if o[0] == "attr" and o[2] == "generations" and any(is_call(s, "chain_xml_parser.parse") for s in subterms(o)):
-                    loops.append(n)
-                    break
-                if o[0] != "attr" and any(s[0] == "attr" and s[2] == "generations" for s in subterms(o)) and any(is_call(s, "chain_xml_parser.parse") for s in subterms(o)):
-                    loops.append(n)  # e.g. a slice / reversed() of the generations: reported below
-                    break
+    def _gen_loops(fn):
+        out = []
+        gg = cfg_of(fn)
+        for n in gg.nodes:
+            if n.kind == "loop" and isinstance(n.ast, ast.For):
+                for o in pr.origins(n.ast.iter, fn):
+                    terms = [o] + [x for x in subterms(o)]
+                    if any(s2[0] == "attr" and s2[2] == "generations" for s2 in terms):
+                        base_ok = any(is_call(s2, "chain_xml_parser.parse") for s2 in terms) or any(s2[0] == "attr" and s2[2] == "generations" and len(s2) > 3 and s2[3] and s2[3].endswith("MHLChain") for s2 in terms)
+                        if base_ok:
+                            out.append(n)
+                            break
+        return out
+
+    vf = loader          # the function that contains the verification loop (the loader itself or a helper it calls)
+    vcall = None         # the loader's call of that helper
+    loops = _gen_loops(loader)
     if not loops:
-        raise AnalysisError(f"{loader.qual}: no loop over the parsed chain's generations found")
+        for call, tg in p.calls[loader.qual]:
+            for t in tg:
+                if t in p.funcs and p.funcs[t].module is loader.module and t != loader.qual:
+                    cand = _gen_loops(p.funcs[t])
+                    if cand:
+                        vf, vcall, loops = p.funcs[t], call, cand
+    if not loops:
+        raise AnalysisError(f"{loader.qual}: no loop over the parsed chain's generations found (neither in the loader nor in a helper it calls)")
+    lg = cfg_of(vf)
+    if vcall is not None:
+        # the helper must be handed the chain that was just parsed
+        b = p.bind_args(vf, vcall)
+        okarg = False
+        for pn, a in b.items():
+            if a is None:
+                continue
+            for o in pr.origins(a, loader):
+                if is_call(o, "chain_xml_parser.parse"):
+                    okarg = True
+        r1.check(okarg, loader, vcall, "the verification helper is not given the chain that was parsed from this history's chain file", construct="verification helper argument")
     for loop in loops:
-        r1.instance(loader, loop.ast, f"for {norm(loop.ast.target)} in {norm(loop.ast.iter)}")
-        r1.check(is_plain_iter(p, loop.ast.iter) and isinstance(loop.ast.iter, (ast.Attribute, ast.Name)), loader, loop.ast.iter, "the loop does not iterate the full, unmodified generation list", construct=loop.ast.iter)
+        r1.instance(vf, loop.ast, f"for {norm(loop.ast.target)} in {norm(loop.ast.iter)}")
+        r1.check(is_plain_iter(p, loop.ast.iter) and isinstance(loop.ast.iter, (ast.Attribute, ast.Name)), vf, loop.ast.iter, "the loop does not iterate the full, unmodified generation list", construct=loop.ast.iter)
         gvar = loop.ast.target.id if isinstance(loop.ast.target, ast.Name) else None
         if gvar is None:
             raise AnalysisError("verification loop target is not a simple name")
         n_back = 0
-        for kind, conds, trail in loop_iteration_paths(g, loop):
-            wit = g.fmt_path(trail)
+        for kind, conds, trail in loop_iteration_paths(lg, loop):
+            wit = lg.fmt_path(trail)
             if kind == "back":
                 n_back += 1
-                ok, why = _has_digest_equality(p, pr, loader, g, conds, gvar, roles, digest_funcs)
+                ok, why = _has_digest_equality(p, pr, vf, lg, conds, gvar, roles, digest_funcs)
                 last = trail[-2] if len(trail) > 1 else loop
-                r1.check(ok, loader, last.ast if last.ast is not None else loop.ast, f"a path through the verification loop reaches the next generation without the digest comparison holding ({why})", construct=f"path to next iteration: {[ (norm(c), l) for c, l in conds ]}", witness=wit)
+                r1.check(ok, vf, last.ast if last.ast is not None else loop.ast, f"a path through the verification loop reaches the next generation without the digest comparison holding ({why})", construct=f"path to next iteration: {[ (norm(c), l) for c, l in conds ]}", witness=wit)
             elif kind == "raise":
                 rs = trail[-2].ast
-                cls = raised_class(p, loader, rs) if isinstance(rs, ast.Raise) else None
+                cls = raised_class(p, vf, rs) if isinstance(rs, ast.Raise) else None
                 # which branch?  exists(...) false => missing ; comparison unequal => modified
-                branch = _branch_kind(p, pr, loader, conds, gvar, roles, digest_funcs)
+                branch = _branch_kind(p, pr, vf, conds, gvar, roles, digest_funcs)
                 want = {"missing": c_missing, "modified": c_mod}.get(branch)
-                r1.check(want is not None and cls == want, loader, rs, f"raise on the '{branch}' branch of the verification loop must be {want} (exit {codes.get(want)}), found {cls}", witness=wit)
+                r1.check(want is not None and cls == want, vf, rs, f"raise on the '{branch}' branch of the verification loop must be {want} (exit {codes.get(want)}), found {cls}", witness=wit)
             else:
                 last = trail[-2] if len(trail) > 1 else loop
-                r1.check(False, loader, last.ast, f"the verification loop can be left by '{kind}' before every generation was checked", construct=f"{kind}: {norm(last.ast)}", witness=wit)
+                r1.check(False, vf, last.ast, f"the verification loop can be left by '{kind}' before every generation was checked", construct=f"{kind}: {norm(last.ast)}", witness=wit)
         if n_back == 0:
-            r1.check(False, loader, loop.ast, "verification loop has no path to a next iteration", construct="no back edge")
+            r1.check(False, vf, loop.ast, "verification loop has no path to a next iteration", construct="no back edge")
     # chain-missing guard precedes the chain parse
     nochain_raises = [n for n in g.nodes if n.kind == "stmt" and isinstance(n.ast, ast.Raise) and raised_class(p, loader, n.ast) == c_nochain]
     r1.check(len(nochain_raises) >= 1, loader, loader.node, f"no raise of {c_nochain} (exit 32) in the loader", construct="raise NoMHLChain")
@@ -163,8 +191,16 @@ def run(report, p):
 
     # ------------------------------------------------------------------ R5.2 verify before trust
     r2 = report.rule("R5.2", "no manifest is parsed and no child history discovered unless every chain entry was verified first (or the chain is empty)", 2)
-    empties = {n.id for n in g.nodes if n.kind == "test" and norm(n.ast) in {norm(l.ast.iter) for l in loops}}
-    guard = {l.id for l in loops} | empties
+    if vcall is None:
+        empties = {n.id for n in g.nodes if n.kind == "test" and norm(n.ast) in {norm(l.ast.iter) for l in loops}}
+        guard = {l.id for l in loops} | empties
+    else:
+        guard = {g.node_for(vcall).id}
+        # inside the helper: the normal exit is reached only through the loop or through an emptiness test of the same list
+        h_emp = {n.id for n in lg.nodes if n.kind == "test" and norm(n.ast) in {norm(l.ast.iter) for l in loops}}
+        bypass = lg.find_path(lg.entry, {lg.exit.id}, avoid={l.id for l in loops} | h_emp)
+        r2.instance(vf, vf.node, "verification helper")
+        r2.check(bypass is None, vf, vf.node, "the verification helper can return without entering the verification loop", witness=lg.fmt_path(bypass) if bypass else None, construct="helper bypass")
     later = [(c, "manifest parse") for c in manifest_calls]
     later += [(c, "child discovery") for c, tg in p.calls[loader.qual] if any("child" in t and t in p.funcs for t in tg)]
     if len(later) < 2:
